@@ -893,3 +893,76 @@ def bound_kinds():
                                            f"ENTITY a;\n  n : INTEGER;\n  l : LIST OF INTEGER;\n  v : LIST [0 : {b}] OF INTEGER;\n  w : ARRAY [{b} : 9] OF INTEGER;\nEND_ENTITY;\n"
                                            f"TYPE tb = SET [{b} : ?] OF REAL;\nEND_TYPE;\n")))
     return out
+
+
+# ------------------------------------------------------------------ interface (USE / REFERENCE) graphs
+def import_graphs():
+    """(tag, data): multi-schema files whose USE/REFERENCE clauses form self-imports, 2- and 3-cycles, chains and diamonds, with
+    whole-schema and item-wise edges, and a consumer schema that imports an existing / missing / renamed item from a schema on
+    the graph and uses it"""
+    out = []
+    topologies = {
+        "self": {"a": ["a"]},
+        "cycle2": {"a": ["b"], "b": ["a"]},
+        "cycle3": {"a": ["b"], "b": ["c"], "c": ["a"]},
+        "cycle2_tail": {"a": ["b"], "b": ["a", "d"], "d": []},
+        "chain3": {"a": ["b"], "b": ["c"], "c": []},
+        "diamond": {"a": ["b", "c"], "b": ["d"], "c": ["d"], "d": []},
+        "two_cycles": {"a": ["b", "c"], "b": ["a"], "c": ["a"]},
+    }
+    edge_kinds = {
+        "use_all": lambda dst, item: f"USE FROM {dst};",
+        "ref_all": lambda dst, item: f"REFERENCE FROM {dst};",
+        "use_item": lambda dst, item: f"USE FROM {dst} (e_{dst});",
+        "ref_item": lambda dst, item: f"REFERENCE FROM {dst} (e_{dst});",
+        "use_item_as": lambda dst, item: f"USE FROM {dst} (e_{dst} AS r_{dst}_{item});",
+        "use_missing": lambda dst, item: f"USE FROM {dst} (nosuch_{dst});",
+    }
+    consumers = {
+        "existing": ("USE FROM a (e_a);", "e_a"),
+        "missing": ("USE FROM a (nonexistent);", None),
+        "missing_ref": ("REFERENCE FROM a (nonexistent);", None),
+        "missing_as": ("USE FROM a (nonexistent AS x);", "x"),
+        "existing_as": ("USE FROM a (e_a AS x);", "x"),
+        "whole_use": ("USE FROM a;", "e_a"),
+        "whole_ref": ("REFERENCE FROM a;", "e_a"),
+        "whole_use_missing_name": ("USE FROM a;", "nonexistent"),
+        "far_item": ("USE FROM a (e_zz);", "e_zz"),         # declared by no schema, or only by one reached through the graph
+        "none": ("", None),
+    }
+    for tk, topo in topologies.items():
+        for ek, edge in edge_kinds.items():
+            for ck, (imp, used) in consumers.items():
+                parts = []
+                for s_name, dsts in topo.items():
+                    body = "".join(edge(d, s_name) + "\n" for d in dsts)
+                    parts.append(f"SCHEMA {s_name};\n{body}ENTITY e_{s_name};\n  v_{s_name} : INTEGER;\nEND_ENTITY;\nEND_SCHEMA;\n")
+                use = (f"ENTITY user SUBTYPE OF ({used});\n  w : INTEGER;\nEND_ENTITY;\nENTITY holder;\n  h : {used};\nEND_ENTITY;\n" if used
+                       else "ENTITY user;\n  w : INTEGER;\nEND_ENTITY;\n")
+                parts.append(f"SCHEMA consumer;\n{imp}\n{use}END_SCHEMA;\n")
+                out.append((f"imports:{tk}:{ek}:{ck}", "".join(parts).encode()))
+    # chains of renames: every schema re-exports the previous name under a new one
+    for n in (2, 5, 40):
+        parts = ["SCHEMA r0;\nENTITY x0;\n  v : INTEGER;\nEND_ENTITY;\nEND_SCHEMA;\n"]
+        for i in range(1, n):
+            parts.append(f"SCHEMA r{i};\nUSE FROM r{i - 1} (x{i - 1} AS x{i});\nEND_SCHEMA;\n")
+        for last, closing in ((f"x{n - 1}", ""), ("nonexistent", ""), (f"x{n - 1}", f"SCHEMA r0b;\nUSE FROM r{n - 1} (x{n - 1} AS x0);\nEND_SCHEMA;\n")):
+            parts2 = parts + [closing, f"SCHEMA consumer;\nUSE FROM r{n - 1} ({last});\nENTITY user SUBTYPE OF ({last});\nEND_ENTITY;\nEND_SCHEMA;\n"]
+            out.append((f"imports:rename_chain{n}:{last[:3]}:{'closed' if closing else 'open'}", "".join(parts2).encode()))
+    # a rename cycle: a imports x from b, b imports x from a, nobody declares it
+    out.append(("imports:rename_cycle", b"SCHEMA a;\nUSE FROM b (x);\nEND_SCHEMA;\nSCHEMA b;\nUSE FROM a (x);\nEND_SCHEMA;\nSCHEMA consumer;\nUSE FROM a (x);\nENTITY u SUBTYPE OF (x);\nEND_ENTITY;\nEND_SCHEMA;\n"))
+    out.append(("imports:rename_cycle_as", b"SCHEMA a;\nUSE FROM b (y AS x);\nEND_SCHEMA;\nSCHEMA b;\nUSE FROM a (x AS y);\nEND_SCHEMA;\nSCHEMA consumer;\nREFERENCE FROM a (x);\nENTITY u;\n  f : x;\nEND_ENTITY;\nEND_SCHEMA;\n"))
+    return out
+
+
+def use_cycle(n, missing=True):
+    """n >= 1 schemas that USE FROM each other in a ring, plus a consumer importing a (missing) item from the first"""
+    names = [f"s{i}" for i in range(max(1, n))]
+    k = len(names)
+    parts = [f"SCHEMA {names[i]};\nUSE FROM {names[(i + 1) % k]};\nENTITY e{i};\nEND_ENTITY;\nEND_SCHEMA;\n" for i in range(k)]
+    item = "nonexistent" if missing else f"e{k - 1}"
+    parts.append(f"SCHEMA consumer;\nUSE FROM s0 ({item});\nENTITY u;\n  w : INTEGER;\nEND_ENTITY;\nEND_SCHEMA;\n")
+    return "".join(parts).encode()
+
+
+FAMILIES["use_cycle"] = use_cycle
